@@ -162,7 +162,62 @@ func c17Run(c *fw.Ctx, shard, nshards int) {
 	c.Bound("implementations", names)
 }
 
+// c17LargeLens: lengths beyond the dense sweep, around the sizes at which buffers
+// and loop thresholds usually change (the library's 4096-byte write buffer, the
+// 32 KiB window, 16-bit lengths).
+func c17LargeLens() []int {
+	var ls []int
+	add := func(lo, hi int) {
+		for n := lo; n <= hi; n++ {
+			ls = append(ls, n)
+		}
+	}
+	add(8180, 8200)
+	add(16376, 16392)
+	add(32752, 32800)
+	add(65528, 65544)
+	ls = append(ls, 40001, 70003, 131075)
+	return ls
+}
+
+func c17LargeRun(c *fw.Ctx, shard, nshards int) {
+	const maxLen = 131075
+	backing := make([]byte, maxLen+512)
+	want := make([]byte, maxLen)
+	orig := make([]byte, maxLen+2*c17Guard)
+	rnd := rand.New(rand.NewSource(c.Seed*1000 + 77 + int64(shard)))
+	ims := maskImpls()
+	lens := c17LargeLens()
+	for i := shard; i < len(lens); i += nshards {
+		n := lens[i]
+		for _, im := range ims {
+			for align := 0; align < 64; align++ {
+				c17One(c, im, c17Case{im.name, n, align, c17Keys[align%len(c17Keys)], -1, -1}, backing, want, orig, rnd)
+			}
+			c17One(c, im, c17Case{im.name, n, 5, c17Keys[0], n / 3, -1}, backing, want, orig, rnd)
+		}
+	}
+	c.Bound("large_lengths", len(lens))
+}
+
 func init() {
+	fw.Register(fw.Part{
+		Prop: "C17", Name: "large",
+		Units: func(tier string) []fw.Unit { return fw.Shards("lens", 16, c17LargeRun) },
+		Replay: func(c *fw.Ctx, data json.RawMessage) {
+			var cs c17Case
+			if json.Unmarshal(data, &cs) != nil {
+				c.EngineError("bad replay data")
+				return
+			}
+			for _, im := range maskImpls() {
+				if im.name == cs.Impl {
+					n := cs.Len
+					c17One(c, im, cs, make([]byte, n+512), make([]byte, n), make([]byte, n+2*c17Guard), rand.New(rand.NewSource(c.Seed)))
+				}
+			}
+		},
+	})
 	fw.Register(fw.Part{
 		Prop: "C17", Name: "mask",
 		Units: func(tier string) []fw.Unit { return fw.Shards("grid", 16, c17Run) },
